@@ -492,15 +492,15 @@ Proof.
 Qed.
 
 Lemma set_scalar_good c st n v :
-  Good c st -> Jt st -> match v with Some s => src_ok c s | None => True end ->
+  Good c st -> match v with Some s => src_ok c s | None => True end ->
   let '(st', r) := set_scalar c st n v in
-  Good c st' /\ Jt st' /\ RelX c (fun m => m = n) st st' /\ (forall h, r <> Host h) /\ r <> OutOfFuel /\
+  Good c st' /\ (Jt st -> Jt st') /\ RelX c (fun m => m = n) st st' /\ (forall h, r <> Host h) /\ r <> OutOfFuel /\
   (r = Ok tt -> mem_key n (scal st') = true).
 Proof.
-  intros G HJt Hv. unfold set_scalar. destruct v as [s|].
+  intros G Hv. unfold set_scalar. destruct v as [s|].
   - (* a value *)
     set (st0 := if is_strobj (read_src st s) then fix_temporaries st else st).
-    assert (H0 : Good c st0 /\ Jt st0 /\ Rel c st st0 /\
+    assert (H0 : Good c st0 /\ (Jt st -> Jt st0) /\ Rel c st st0 /\
                  (is_strobj (read_src st s) = true -> forall p, ptr_ok c st p -> Jp c st0 p) /\
                  read_src st0 s = read_src st s).
     { unfold st0. destruct (is_strobj (read_src st s)) eqn:Es.
@@ -524,7 +524,7 @@ Proof.
         -- intros Hs. unfold obj_sval. rewrite Hs. destruct (read_src st1 s); eauto.
         -- reflexivity.
         -- rewrite Hmem. discriminate.
-        -- split; [exact G2|]. split; [unfold Jt; simpl; apply HJ1, HJ0|].
+        -- split; [exact G2|]. split; [intros HJt; unfold Jt; simpl; apply HJ1, HJ0, HJt|].
            split; [|split; [intros; discriminate|split; [discriminate|intros _; simpl; apply mem_key_upsert_same]]].
            eapply RelX_trans; [|exact HR2]. eapply RelX_weaken; [|eapply Rel_trans; eassumption]. intros ? [].
     + spl; auto; try (eapply RelX_weaken; [|exact HR0]; intros ? []); intros; discriminate.
@@ -657,7 +657,8 @@ Lemma set_array_good c st n i :
   Good c st -> Jt st -> mem_key n (arrs st) = true ->
   let '(st', r) := set_array c st n i in
   Good c st' /\ Jt st' /\ (forall h, r <> Host h) /\ r <> OutOfFuel /\
-  stack st' = stack st /\ tvals st' = tvals st /\ scal st' = scal st /\ fns st' = fns st /\ active st' = active st.
+  stack st' = stack st /\ tvals st' = tvals st /\ scal st' = scal st /\ fns st' = fns st /\ active st' = active st /\
+  (forall m, mem_key m (arrs st) = true -> mem_key m (arrs st') = true).
 Proof.
   intros G HJt Hm. unfold set_array. cbv zeta.
   set (st0 := if is_strobj (top_obj st) then fix_temporaries st else st).
@@ -683,7 +684,7 @@ Proof.
     set (st2 := set_loc (fix_temporaries st) (LArr n (Z.to_nat i)) p).
     assert (Hst2 : st2 = set_arrs (fix_temporaries st) (upsert n (d, update_nth (Z.to_nat i) p els) (arrs (fix_temporaries st)))).
     { unfold st2. simpl. simpl in Hl. rewrite Hl. reflexivity. }
-    split; [|rewrite Hst2; simpl; spl; auto; try (intros; discriminate); tauto].
+    split; [|rewrite Hst2; simpl; spl; auto; try (intros; discriminate); try tauto; intros m Hmm; apply mem_key_upsert, Hmm].
     rewrite Hst2. simpl in Hl.
     assert (Hin : forall q, In q (update_nth (Z.to_nat i) p els) -> q = p \/ In q els).
     { clear. generalize (Z.to_nat i). induction els as [|x els IH]; intros [|k] q; simpl; auto.
@@ -904,4 +905,46 @@ Proof.
         -- rewrite Hd. reflexivity.
       * reflexivity.
     + simpl. spl; auto.
+Qed.
+
+(* writing an acceptable pointer into an array element *)
+Lemma Good_set_arr_elem c st n k p d els :
+  Good c st -> lookup n (arrs st) = Some (d, els) -> (k < length els)%nat -> ptr_ok c st p -> Jp c st p ->
+  Good c (set_loc st (LArr n k) p).
+Proof.
+  intros G Hl Hk Hp HJ. simpl. rewrite Hl.
+  assert (Hm : mem_key n (arrs st) = true) by (unfold mem_key; rewrite Hl; reflexivity).
+  assert (Hin : forall q, In q (update_nth k p els) -> q = p \/ In q els).
+  { clear. revert k. induction els as [|x els IH]; intros [|k] q; simpl; auto.
+    - intros [H|H]; auto.
+    - intros [H|H]; auto. destruct (IH k q H); auto. }
+  assert (Hobj : forall o, obj_ok c st o -> obj_ok c (set_arrs st (upsert n (d, update_nth k p els) (arrs st))) o).
+  { intros o Ho. destruct o; simpl in *; auto.
+    destruct Ho as (Hi1 & d1 & els1 & Hl1 & Hlt1). split; [exact Hi1|].
+    destruct (Z.eq_dec n0 n) as [->|Hne].
+    - rewrite Hl in Hl1. inversion Hl1; subst. exists d1, (update_nth k p els1).
+      rewrite lookup_upsert_same. split; [reflexivity|]. rewrite length_update_nth. exact Hlt1.
+    - exists d1, els1. rewrite lookup_upsert_other by assumption. auto. }
+  constructor; simpl.
+  - exact (g_chain _ _ G).
+  - exact (g_low _ _ G).
+  - exact (g_j1 _ _ G).
+  - exact (g_nd_scal _ _ G).
+  - rewrite map_fst_upsert_mem; [exact (g_nd_arrs _ _ G)|exact Hm].
+  - exact (g_scal _ _ G).
+  - exact (g_scal_num _ _ G).
+  - intros m d0 els0 Hl0. destruct (Z.eq_dec m n) as [->|Hne].
+    + rewrite lookup_upsert_same in Hl0. inversion Hl0; subst. destruct (g_arrs _ _ G n d0 els Hl) as [A B].
+      split; [exact A|]. intros q Hq. destruct (Hin q Hq) as [->|Hq']; [auto|apply B, Hq'].
+    + rewrite lookup_upsert_other in Hl0 by assumption. exact (g_arrs _ _ G m d0 els0 Hl0).
+  - intros m d0 els0 Hl0. destruct (Z.eq_dec m n) as [->|Hne].
+    + rewrite lookup_upsert_same in Hl0. inversion Hl0; subst. rewrite length_update_nth. exact (g_arrlen _ _ G n d0 els Hl).
+    + rewrite lookup_upsert_other in Hl0 by assumption. exact (g_arrlen _ _ G m d0 els0 Hl0).
+  - rewrite (g_acur _ _ G). clear - Hl.
+    induction (arrs st) as [|[k' [d' e']] l IH]; simpl in *; [discriminate|].
+    destruct (n =? k') eqn:Ek; simpl.
+    + inversion Hl; subst. reflexivity.
+    + rewrite IH by exact Hl. reflexivity.
+  - intros fr o Hfr Ho. apply Hobj. eapply (g_stack _ _ G); eauto.
+  - intros o Ho. apply Hobj, (g_tvals _ _ G), Ho.
 Qed.
